@@ -29,3 +29,20 @@ def flatname (segments : List Name) (avoid : List Name) (maxlen : Nat := 511) : 
 def insertName (ns : List Name) (n : Name) : List Name := n :: ns
 
 end Hdl21.Names
+
+namespace Hdl21.Names
+
+/-- What a rewriting pass does with a batch of things to name (the flattened members of a bundle instance, the elements of an
+    array, the instances of an instance bundle): name the first against the *live* namespace, insert it, go on.
+    Returns the namespace afterwards and the invented names in order; fails as soon as one `flatname` does. -/
+def inventAll (ns : List Name) (maxlen : Nat) : List (List Name) → Option (List Name × List Name)
+  | [] => some (ns, [])
+  | segs :: rest =>
+    match flatname segs ns maxlen with
+    | none => none
+    | some r =>
+      match inventAll (insertName ns r) maxlen rest with
+      | none => none
+      | some (ns', rs) => some (ns', r :: rs)
+
+end Hdl21.Names
